@@ -17,7 +17,7 @@ try:
         if old not in s:
             print("PATCH-FAILED", name); sys.exit(3)
         open(p, "w").write(s.replace(old, new, 1))
-    env = dict(os.environ, PYTHONPATH=d + "/src")
+    env = dict(os.environ, PYTHONPATH=d + "/src", VERIF_OUT_DIR=d + "/out")
     for c in checks:
         tier = "quick"
         if ":" in c:
